@@ -26,6 +26,19 @@ CLAIMED = {
     ref="3.11"),
 }
 
+CLAIMED.update({
+ "C06": dict(
+    technique="deterministic simulation: tuning-knob flip -- two replicas (data_first_search on/off, set at class level or at run time) driven by the same seeded plan with leaf and structural faults, fail-fast and collecting; histories compared",
+    level="seeded exploration of (declaration with aliases/alias_from/case-insensitivity/defaults/dependencies/no_input/mode/on_error, class options, input key spellings incl. one field under two spellings, leaf faults) plans, each executed under both knob values; verdict, parsed data, and the (error class, item) multiset must agree",
+    note="fail-fast with >=2 failing items: only 'both reject' is required (DESIGN 3.6); warnings not compared; samples, does not enumerate",
+    ref="3.6"),
+ "C20": dict(
+    technique="deterministic simulation: real threads under a baton scheduler (sys.settrace line pre-emption inside utype/), seeded schedules (uniform/targeted/quantum/PCT), linearizability against sequential twin worlds, schedule minimisation and replay",
+    level="seeded exploration of 2-3 thread schedules at source-line granularity over first parses with pending forward references (module-level and function-local classes), conversions racing registrations, concurrent decoration/first calls and warmed steady state; each run's per-operation outcomes must equal those of some sequential order consistent with real time",
+    note="line granularity (not bytecode); <=6 operations per run; cooperative lock shim replaces utype's locks so blocking is scheduled too; samples, does not enumerate (DESIGN 3.20)",
+    ref="3.20"),
+})
+
 NA = {
  "C01": "pure function of (declaration, options, input): no schedule, history, fault or knob can change the verdict; sampling inputs would be property-based testing, not simulation",
  "C02": "biconditional over the value domain of each constraint; pure",
